@@ -248,3 +248,7 @@ aio!(V_U8, V_U8, 5, 2, 7, 3, 9);
 aio!(U_E2, U_E2, 5, 2, 7, 3, 9);
 aio!(S_SS2, SS2, 6, 2, 8, 3, 10);
 aio!(U_S1, U_S1, 8, 2, 10, 2, 12);
+// quick tier: at most 2 Pending results
+aio!(V_U8, V_U8_q, 5, 2, 7, 2, 9);
+aio!(S_SS2, SS2_q, 6, 2, 8, 2, 10);
+aio!(U_E2, U_E2_q, 5, 2, 7, 2, 9);
